@@ -660,8 +660,15 @@ class Exec(Engine):
         self.apply_use(c.use_at_start, st)
         self.cover(st, "requires", self.fn.lineno)
         finals = self.run_block(self.fn.body, [st])
+        # a parameter NAME that the body rebinds (p = ...) no longer denotes the caller's object: in the postcondition and
+        # the frame the name refers to the entry value (rebinding is not a mutation of the argument)
+        rebound = {t.id for n in ast.walk(self.fn) if isinstance(n, (ast.Assign, ast.AugAssign, ast.AnnAssign))
+                   for t in (n.targets if isinstance(n, ast.Assign) else [n.target]) if isinstance(t, ast.Name)} & set(c.params)
         n_norm = 0
         for i, s in enumerate(finals):
+            for p_ in rebound:
+                if p_ in s.old:
+                    s.vars[p_] = s.old[p_]
             if s.flow in ("normal", "return"):
                 n_norm += 1
                 self.apply_use(c.use_at_end, s)
